@@ -28,9 +28,11 @@ META = {
                   "among <= 1 leaf sibling; thorough: <= 2 siblings, and depth 3: a container holding one container and <= 1 leaf) over 3 collections and 2 plain leaves for all 8 container "
                   "kinds, with collections as dict keys / set members, x traverse; design invariants (ShapeKept, AllComputed, TopOnly, "
                   "Idempotent) are checked on every case. Each case is run through dask.compute, dask.persist and dask.optimize with the "
-                  "collections' kinds drawn from a menu of all-different and A-B-A assignments (delayed, bag, bag item, array, dataframe "
-                  "series), schedulers sync/threads, optimize_graph on/off; the returned objects are projected back (container kinds, "
-                  "order, value fingerprints, type / keys-shape / metadata of returned collections) and compared. Random deeper and wider "
+                  "collections' kinds drawn from a menu of all-different and A-B-A assignments (delayed, Delayed with a declared length "
+                  "nout = 0..3, bag, bag item, array, dataframe series), schedulers sync/threads, optimize_graph on/off; the returned "
+                  "objects are projected back (container kinds, order, value fingerprints, and for returned collections the full metadata "
+                  "projection: type, keys-shape, array shape/dtype/chunks/name kind, bag npartitions, frame columns/dtypes/divisions, "
+                  "Delayed len() and tuple unpacking) and compared with the originals'. Random deeper and wider "
                   "structures are recorded and decided by TLC.",
     "level_note": "Trusted: TLC, the projection (harness/nested.py; cross-checked on every case by projecting the eagerly built result: a "
                   "disagreement with the TLA+ expectation is a machinery error), value fingerprints (pairwise different values). "
